@@ -31,8 +31,10 @@ RULE = (
 )
 ASSUMPTIONS = ["fold model rtmon.spec.chain_fold", "default delimiter ':' (the delimiter is not among the dimensions C09 quantifies over)"]
 
-PA = ["a", "A", "b", "B", "ab", "c", "C", "", "AB", "ss", "ß", "s", "ſ", "a,b"]
-UA = ["u/", "U/", "u/x", "v/", "V/", "v", "", "w#", "W#", "u/X"]
+PA = ["a", "A", "b", "B", "ab", "c", "C", "", "AB", "ss", "ß", "s", "ſ", "a,b", " a", "a "]
+# (twins under well-meant equivalences - letter case, http / https, a blank at the edge - are different strings: they may
+#  sit in different records of one converter, and chaining must keep them apart)
+UA = ["u/", "U/", "u/x", "v/", "V/", "v", "", "w#", "W#", "u/X", "http://t/n/", "https://t/n/", "http://t/n", " u/"]
 
 
 def setup(ctx):
